@@ -427,6 +427,32 @@ def _q4(run: Run, mod) -> None:
         ("two unknowns", [{x: good1, y: good2}], [[("eq", x, good1), ("eq", y, good2)], [("eq", y, good2), ("eq", x, good1)]]),
         ("no solution", [], [[]]),
     ]
+    # the verification flag in any spelling (keyword, item assignment, setdefault / update / dict literal), on any path: decided before the evaluation,
+    # which cannot follow a condition on the kind of equation
+    fn = next((f_ for f_ in mod.tree.body if isinstance(f_, ast.FunctionDef) and f_.name == "solve_for_scalar"), None)
+    if fn is None:
+        raise AnalysisError("C16/Q4: solve_for_scalar not found")
+    run.ob("Q4", "check-flag-spellings")
+
+    def _is_false(v) -> bool:
+        return isinstance(v, ast.Constant) and v.value is False
+
+    for x_ in ast.walk(fn):
+        hit = None
+        if isinstance(x_, ast.keyword) and x_.arg == "check" and _is_false(x_.value):
+            hit = x_.value
+        elif isinstance(x_, ast.Assign) and any(isinstance(t_, ast.Subscript) and isinstance(t_.slice, ast.Constant) and t_.slice.value == "check" for t_ in x_.targets) \
+                and _is_false(x_.value):
+            hit = x_
+        elif isinstance(x_, ast.Call) and isinstance(x_.func, ast.Attribute) and x_.func.attr == "setdefault" and len(x_.args) == 2 \
+                and isinstance(x_.args[0], ast.Constant) and x_.args[0].value == "check" and _is_false(x_.args[1]):
+            hit = x_
+        elif isinstance(x_, ast.Dict) and any(isinstance(k_, ast.Constant) and k_.value == "check" and _is_false(v_) for k_, v_ in zip(x_.keys, x_.values)):
+            hit = x_
+        if hit is not None:
+            run.violate("Q4", f"{MOD}:solve_for_scalar:check-disabled", mod, hit,
+                        f"solve_for_scalar switches off sympy.solve's verification of candidate solutions (`{norm(x_ if not isinstance(x_, ast.keyword) else x_.value, 50)}` for "
+                        f"`check`): extraneous roots are returned as solutions")
     for label, sols, accepted in cases:
         rd = R(sols)
         run.ob("Q4", label)
